@@ -416,7 +416,7 @@ def c08(scn, x, worker_facts):
 
 
 def _strip_nets(name):
-    return re.sub(r"\.nets\..*$", "", name)
+    return re.sub(r"\.nets\.[^.]+\.[^.]+", "", name)
 
 
 def _producer_hint(e, suffix, state):
